@@ -86,11 +86,11 @@ func runC02(w *World, r *Report, tier string) {
 				return
 			}
 			n++
-			ev := ret.Results[len(ret.Results)-1]
+			ev := rres(path, ret)[len(ret.Results)-1]
 			if c, ok := ev.(*ssa.Call); !ok || (w.callKey(c) != "errors.New" && w.callKey(c) != "fmt.Errorf") {
 				okDefault = false
 			}
-			if !isNilConst(ret.Results[0]) {
+			if !isNilConst(rres(path, ret)[0]) {
 				okDefault = false
 			}
 		})
@@ -237,7 +237,7 @@ func runC02(w *World, r *Report, tier string) {
 				bad = "DecodeElement does not decode into a local packet"
 				return
 			}
-			rv := ret.Results[0]
+			rv := rres(path, ret)[0]
 			okRet := rv == ssa.Value(al)
 			if u, ok := rv.(*ssa.UnOp); ok && u.X == ssa.Value(al) {
 				okRet = true
@@ -245,7 +245,7 @@ func runC02(w *World, r *Report, tier string) {
 			if !okRet {
 				bad = "the leaf returns something other than the packet it decoded"
 			}
-			if ret.Results[1] != ssa.Value(de) {
+			if rres(path, ret)[1] != ssa.Value(de) {
 				bad = "the leaf does not return DecodeElement's error: a malformed element is reported as a good packet"
 			}
 		})
@@ -350,7 +350,7 @@ func runC02(w *World, r *Report, tier string) {
 						okEOF = false
 						return
 					}
-					if c, ok := ret.Results[1].(*ssa.Call); !ok || w.callKey(c) != "errors.New" {
+					if c, ok := rres(path, ret)[1].(*ssa.Call); !ok || w.callKey(c) != "errors.New" {
 						okEOF = false
 					}
 				})
